@@ -82,3 +82,4 @@ LEVEL = {
 }
 
 CFG['rule'] = CFG['rule'] + ' ' + 'Strings of the pool now include a 4-byte UTF-8 character (U+10000 and above, lead byte 0xF0..0xF4) directly after a prefix that is queried.'
+CFG['rule'] = CFG['rule'] + ' ' + 'A quarter of the string-array updates keep the words and their order and move the element boundaries (two neighbours joined with a blank, or an element split at its blank). Id pools contain the all-zero / all-ones uuid.'
